@@ -232,7 +232,15 @@ def run(ctx):
         vmd_trace = None
     if bench.traced and vmd_trace:
         tsample = rounds_of(pick(scens, rng, 40 if quick else 300, kinds_min=1), rng)
-        vmd_trace.validate18(ctx, bench, tsample, findings, stats, traces)
+        nh = 0
+        keep = []
+        for rd in tsample:                     # every hostile round costs a daemon and a TLC run of its own
+            if "hostile" in rd["scens"][0]["kinds"]:
+                nh += 1
+                if nh > (3 if quick else 12):
+                    continue
+            keep.append(rd)
+        vmd_trace.validate(ctx, bench, "C18", keep, findings, stats, traces, yield_seed=ctx.seed + 9)
     else:
         ctx.assumptions.append("H4 session events not compiled into this tree / trace validator absent: no trace validation")
 
